@@ -133,12 +133,12 @@ def parseErr (j : Json) : R CfgErr := do
   | k => throw s!"bad error kind {k}"
 
 def evJson : Ev CVal → Json
-  | .write p v => jarr [Json.str "write", Json.str p, valJson v]
+  | .write p v also => jarr [Json.str "write", Json.str p, valJson v, pairsJson also]
   | .firstPoll => jarr [Json.str "firstPoll"]
 
 def parseEv (j : Json) : R (Ev CVal) := do
   match ← arr j with
-  | [.str "write", p, v] => return .write (← p.getStr?) (← parseVal v)
+  | [.str "write", p, v, also] => return .write (← p.getStr?) (← parseVal v) (← parsePairs also)
   | [.str "firstPoll"] => return .firstPoll
   | _ => throw "bad event"
 
@@ -151,7 +151,25 @@ def exportName (predefined : List String) (name : String) : Option CVal → Opti
 
 def glue : Glue CDT CVal := ⟨(· == ·), (· == ·), exportName Generated.C10.predefinedParams⟩
 
-def instJson (i : Instance CDT CVal) : Json :=
+/-- the write oracle of a generated class: `consumes` lists, per parameter, the siblings its write method takes from
+`writeDict` (common write handler / hand-written method); the outer wrapper validates first, a refused value reaches no handler -/
+def consumesOf (groups : List (String × List String)) (i : Instance CDT CVal) : WriteOracle CVal :=
+  fun p v _ =>
+    match i.params.find? (fun q => q.name == p) with
+    | some q =>
+      (match q.dt with
+       | some dt => if (validate dt v).isSome then (lookup p groups).getD [] else []
+       | none => [])
+    | none => []
+
+def parseGroups (cls : Json) : R (List (String × List String)) := do
+  (← fldArr cls "params").mapM fun pj => do
+    let cs ← match pj.getObjVal? "consumes" with
+      | .ok c => (do (← arr c).mapM (·.getStr?))
+      | .error _ => pure []
+    return ((← fldStr pj "name"), cs)
+
+def instJson (groups : List (String × List String)) (i : Instance CDT CVal) : Json :=
   Json.mkObj [
     ("modprops", pairsJson i.modProps),
     ("params", jarr (i.params.map fun p => Json.mkObj [
@@ -160,7 +178,7 @@ def instJson (i : Instance CDT CVal) : Json :=
       ("notInit", Json.bool p.notInit), ("given", Json.bool p.given),
       ("export", jopt Json.str (glue.exportName p.name (lookup "export" p.own)))])),
     ("writeDict", pairsJson i.writeDict),
-    ("events", jarr ((prologue i).map evJson))]
+    ("events", jarr ((prologue (consumesOf groups i) i).map evJson))]
 
 def parseObsParam (j : Json) : R (ObsParam CDT CVal) := do
   let probes ← (← fldArr j "probes").mapM fun p => do
@@ -200,7 +218,8 @@ def handle (j : Json) : R Json := do
   | "apply" =>
     let c ← parseClass (← fld j "cls"); let cfg ← parseCfg (← fld j "cfg")
     match applyConfig ops c cfg with
-    | .ok i => return Json.mkObj [("ok", Json.bool true), ("errors", jarr []), ("inst", instJson i)]
+    | .ok i => return Json.mkObj [("ok", Json.bool true), ("errors", jarr []),
+                                  ("inst", instJson (← parseGroups (← fld j "cls")) i)]
     | .error es => return Json.mkObj [("ok", Json.bool false), ("errors", jarr (es.map errJson)), ("inst", Json.null)]
   | "judge" =>
     let c ← parseClass (← fld j "cls"); let cfg ← parseCfg (← fld j "cfg"); let o ← parseObs (← fld j "obs")
